@@ -70,7 +70,7 @@ class BaseQuantizer(tf.Module):
       if isinstance(qnoise_factor, tf.Variable):
         # self.qnoise_factor is a numpy variable, and qnoise_factor is a
         # tf.Variable.
-        self.qnoise_factor = qnoise_factor.eval()
+        self.qnoise_factor = K.get_value(qnoise_factor)
       else:
         # self.qnoise_factor and qnoise_factor are numpy variables.
         # This is to set self.qnoise_factor before building
